@@ -62,6 +62,9 @@ func checkC09(c *Ctx) {
 		c.Undecided("C09-R1", "package tcell", "-", "not loaded")
 		return
 	}
+	c.Rule("C09-R12", "every operand handed to the parameter interpreter is an int, a string or a bool (anything else is read as 0 and the emitted sequence names another colour or cell)")
+	c.Expect("C09-R12", 1)
+	checkTParmOperandTypes(c, p, "C09-R12")
 	c09Encapsulation(c, p)
 	c09Sanitiser(c, p)
 	c08Width(c, p, "C09-R3")
